@@ -22,6 +22,12 @@
 (define-fun OP_CONTAINS () (_ BitVec 64) #x0000000000000009)
 (define-fun OP_FUNCTION () (_ BitVec 64) #x000000000000000a)
 (declare-fun strTrimLeft (Str Str) Str)
+; internal.Normalize: canonical values are fixed points; anything normalisable becomes canonical (assumption on the
+; reflection-based normaliser, C18); normV is the numeric-value-preserving canonical form
+(declare-fun normV (Val) Val)
+(declare-fun normalizable (Val) Bool)
+(assert (forall ((x Val)) (! (=> (canon x) (and (normalizable x) (= (normV x) x))) :pattern ((normV x)))))
+(assert (forall ((x Val)) (! (=> (normalizable x) (canon (normV x))) :pattern ((normV x)))))
 ; the operand of a comparison: Field(name) and "$name" strings are read from the document under test
 ; statefun: operandOf F_query_field_name
 (define-fun operandOf ((fname (Array Ref Str)) (x Val) (d Doc)) Val
@@ -38,17 +44,19 @@
 (define-fun containsF ((cib (Array Ref Val)) (fname (Array Ref Str)) (list Val) (fv Val) (d Doc)) Bool
   (and (isSliceC fv) (not (= (sbase (lval fv)) null))
        (forall ((i (_ BitVec 64))) (=> (bvult i (sllen (lval list)))
+          (and (normalizable (operandOf fname (select cib (selemaddr (lval list) i)) d))
           (exists ((j (_ BitVec 64))) (and (bvult j (sllen (lval fv)))
-             (= (cmpS (operandOf fname (select cib (selemaddr (lval list) i)) d) (select cib (selemaddr (lval fv) j))) 0)))))))
+             (= (cmpS (normV (operandOf fname (select cib (selemaddr (lval list) i)) d)) (select cib (selemaddr (lval fv) j))) 0))))))))
 ; In: the field (absent = nil) compares equal to one of the listed values
 (define-fun inF ((cib (Array Ref Val)) (fname (Array Ref Str)) (list Val) (fv Val) (d Doc)) Bool
-  (exists ((i (_ BitVec 64))) (and (bvult i (sllen (lval list))) (= (cmpS (operandOf fname (select cib (selemaddr (lval list) i)) d) fv) 0))))
+  (exists ((i (_ BitVec 64))) (and (bvult i (sllen (lval list))) (normalizable (operandOf fname (select cib (selemaddr (lval list) i)) d))
+       (= (cmpS (normV (operandOf fname (select cib (selemaddr (lval list) i)) d)) fv) 0))))
 (define-fun likeF ((pattern Val) (fv Val)) Bool (and (isStrC fv) (regexMatch (sval pattern) (sval fv))))
 ; statefun: satUnary F_query_UnaryCriteria_OpType F_query_UnaryCriteria_Field F_query_UnaryCriteria_Value F_query_field_name C_interfaceBB
 (define-fun satUnary ((uop (Array Ref (_ BitVec 64))) (uf (Array Ref Str)) (uv (Array Ref Val)) (fname (Array Ref Str)) (cib (Array Ref Val)) (c Val) (d Doc)) Bool
   (let ((op (select uop (rval c))) (f (select uf (rval c))) (v (select uv (rval c))))
   (ite (= op OP_EXISTS) (dhas d f)
-  (ite (= op OP_EQ) (and (dhas d f) (= (cmpS (dget d f) (operandOf fname v d)) 0))
+  (ite (= op OP_EQ) (and (normalizable (operandOf fname v d)) (dhas d f) (= (cmpS (dget d f) (normV (operandOf fname v d))) 0))
   (ite (= op OP_LIKE) (likeF v (dget d f))
   (ite (= op OP_IN) (inF cib fname v (dget d f) d)
   (ite (or (= op OP_GT) (= op OP_GTEQ) (= op OP_LT) (= op OP_LTEQ)) (compareS c d)
